@@ -335,8 +335,8 @@ class Reader:
         if mod.name == "operator":
             if attr in OPERATOR_INFIX or attr in OPERATOR_CONV or attr in ("getitem", "contains"):
                 return Builtin("operator." + attr)
-        if mod.name == "functools" and attr == "wraps":
-            return Builtin("functools.wraps")
+        if mod.name == "functools" and attr in ("wraps", "partial", "partialmethod"):
+            return Builtin("functools." + attr)
         return Opaque("%s.%s" % (mod.name, attr))
 
     # ---- expressions ---------------------------------------------------------------------------------------
@@ -745,7 +745,70 @@ class Reader:
                 return self._global(d.id)
             return Opaque("default value")
 
+    def partial_of(self, f, pargs, pkw, method):
+        """functools.partial(f, *pargs, **pkw) / functools.partialmethod(...) as a function of the module: a synthetic
+        lambda whose parameters are those of `f` that are still open (for a partialmethod the first one, the receiver,
+        stays in front) and whose body is the call of `f` with the frozen arguments filled in."""
+        if isinstance(f, Bound):
+            return self.partial_of(f.func, [f.recv] + list(pargs), pkw, method) if not method else None
+        for x in list(pargs) + list(pkw.values()):
+            if isinstance(x, Opaque):
+                raise Unknown("partial argument %s" % x.why)
+        closure = {"__pm_f": f}
+        call_args, call_kw = [], []
+        for i, x in enumerate(pargs):
+            closure["__pm_a%d" % i] = x
+            call_args.append(ast.Name(id="__pm_a%d" % i, ctx=ast.Load()))
+        for k, x in pkw.items():
+            closure["__pm_k_" + k] = x
+            call_kw.append(ast.keyword(arg=k, value=ast.Name(id="__pm_k_" + k, ctx=ast.Load())))
+        first, open_params, open_defaults, vararg = [], [], [], None
+        if isinstance(f, Func):
+            a = f.node.args
+            if a.posonlyargs or a.kwonlyargs or a.kwarg:
+                raise Unknown("partial of a function with such a signature")
+            params = list(a.args)
+            defaults = [None] * (len(params) - len(a.defaults)) + list(a.defaults)
+            if method:
+                if not params:
+                    raise Unknown("partialmethod of a function without parameters")
+                first, params, defaults = [params[0]], params[1:], defaults[1:]
+            if len(pargs) > len(params):
+                if not a.vararg:
+                    raise Definite("partial: too many frozen arguments")
+                params, defaults = [], []
+            else:
+                params, defaults = params[len(pargs):], defaults[len(pargs):]
+            keep = [(q, d) for q, d in zip(params, defaults) if q.arg not in pkw]
+            seen_default = False
+            for q, d in keep:
+                if d is None and seen_default:
+                    raise Unknown("partial leaves a keyword-only parameter")
+                seen_default = seen_default or d is not None
+            open_params = [ast.arg(arg=q.arg) for q, _ in keep]
+            open_defaults = [d for _, d in keep if d is not None]
+            vararg = ast.arg(arg=a.vararg.arg) if a.vararg else None
+        else:
+            if method:
+                first = [ast.arg(arg="__pm_self")]
+            vararg = ast.arg(arg="__pm_rest")
+        inner = [ast.Name(id=q.arg, ctx=ast.Load()) for q in first] + call_args \
+            + [ast.Name(id=q.arg, ctx=ast.Load()) for q in open_params]
+        if vararg is not None:
+            inner.append(ast.Starred(value=ast.Name(id=vararg.arg, ctx=ast.Load()), ctx=ast.Load()))
+        body = ast.Call(func=ast.Name(id="__pm_f", ctx=ast.Load()), args=inner, keywords=call_kw)
+        lam = ast.Lambda(args=ast.arguments(posonlyargs=[], args=first + open_params, vararg=vararg, kwonlyargs=[],
+                                            kw_defaults=[], kwarg=None, defaults=open_defaults), body=body)
+        ast.fix_missing_locations(lam)
+        return Func(lam, freeze(closure))
+
     def call_builtin(self, name, args, kwargs, st):
+        if name in ("functools.partial", "functools.partialmethod") and args:
+            made = self.partial_of(args[0], list(args[1:]), dict(kwargs), name.endswith("method"))
+            if made is None:
+                raise Unknown("%s of a bound method" % name)
+            yield made, st
+            return
         if kwargs and name != "print":
             raise Unknown("keyword arguments to %s" % name)
         if name == "print":
